@@ -415,6 +415,7 @@ void add_type(Node *node);
 
 void codegen(Obj *prog, FILE *out);
 int align_to(int n, int align);
+bool has_flonum(Type *ty, int lo, int hi, int offset);
 
 //
 // unicode.c
